@@ -4,34 +4,32 @@
 //   `#[cfg(kani)] mod vp_playback;` to src/lib.rs and run
 //   `cargo kani playback -Z concrete-playback -- vp_playback` (add --release for the release profile)
 
-/// Kani concrete playback for `c16::t_dual_constprop::mutating` (check: assertion failed: y == a.clone().meet(b.clone()))
+/// Kani concrete playback for `c16::t_dual_constprop::mutating` (check: assertion failed: ch == (x != a))
 #[test]
-fn kani_concrete_playback_mutating_12487544622026823811() {
+fn kani_concrete_playback_mutating_8345174616083191572() {
     let concrete_vals: Vec<Vec<u8>> = vec![
-        // 253
-        vec![253],
-        // 37
-        vec![37],
-        // 38
-        vec![38],
+        // 161
+        vec![161],
+        // 215
+        vec![215],
     ];
     kani::concrete_playback_run(concrete_vals, crate::c16::t_dual_constprop::mutating);
 }
 /* native results:
 [
  {
-  "test": "kani_concrete_playback_mutating_12487544622026823811",
-  "check": "assertion failed: y == a.clone().meet(b.clone())",
+  "test": "kani_concrete_playback_mutating_8345174616083191572",
+  "check": "assertion failed: ch == (x != a)",
   "profile": "dev",
   "native": "FAILED",
-  "panic": "panicked at src/c16.rs:67:4:\nassertion failed: y == a.clone().meet(b.clone())"
+  "panic": "panicked at src/c16.rs:64:4:\nassertion failed: ch == (x != a)"
  },
  {
-  "test": "kani_concrete_playback_mutating_12487544622026823811",
-  "check": "assertion failed: y == a.clone().meet(b.clone())",
+  "test": "kani_concrete_playback_mutating_8345174616083191572",
+  "check": "assertion failed: ch == (x != a)",
   "profile": "release",
   "native": "FAILED",
-  "panic": "panicked at src/c16.rs:67:4:\nassertion failed: y == a.clone().meet(b.clone())"
+  "panic": "panicked at src/c16.rs:64:4:\nassertion failed: ch == (x != a)"
  }
 ]
 */
